@@ -82,7 +82,11 @@ fn implicit_first_allele_phasing(src: &[u8]) -> Phasing {
 }
 
 fn explicit_first_allele_phasing(src: &[u8]) -> Phasing {
-    allele_phasing(src[0])
+    // A genotype without alleles has no first allele, i.e., its phasing is never used.
+    src.first()
+        .copied()
+        .map(allele_phasing)
+        .unwrap_or(Phasing::Unphased)
 }
 
 fn allele_phasing(n: u8) -> Phasing {
